@@ -223,8 +223,9 @@ def _frames(self, data):
 _DirFilter._frames = _frames
 
 
-def make_tree(rng, root, kind):
-    """create the thing to send; returns (what, description)"""
+def make_tree(rng, root, kind, unsendable=False):
+    """create the thing to send; returns (what, description); with `unsendable` a directory tree also gets
+    1-3 dangling symbolic links (entries `wormhole send --ignore-unsendable-files` has to skip)"""
     os.makedirs(root, exist_ok=True)
     if kind == "file":
         name = rng.choice(["f.bin", "data file.txt", "ünï-cødé.dat", "-dash", ".hidden", "a'b\"c", "x" * 60])
@@ -252,7 +253,16 @@ def make_tree(rng, root, kind):
             with open(p, "wb") as f:
                 f.write(rng.randbytes(rng.choice([0, 0, 1, 100, 16384, rng.randint(0, 40000)])))
         entries += 1
-    return name, {"kind": "directory", "name": name, "entries": entries}
+    skipped = []
+    if unsendable:
+        for i in range(rng.randint(1, 3)):
+            parent = rng.choice(dirs)
+            n = rng.choice(["0-dangling", "dangling", "zz-dangling", "A"]) + str(i)
+            p = os.path.join(parent, n)
+            if not os.path.lexists(p):
+                os.symlink(os.path.join(root, "no-such-target-%d" % i), p)
+                skipped.append(os.path.relpath(p, base))
+    return name, {"kind": "directory", "name": name, "entries": entries, "unsendable": skipped}
 
 
 def new_sandbox(prefix):
